@@ -100,3 +100,23 @@ def witness_family(r):
         return m.shape == e.shape and np.allclose(m.toarray(), e, rtol=1e-5, atol=1e-6)
     ok = eq(M, exp["fit"]) and (T is None or "transform" not in exp or eq(T, exp["transform"]))
     return {"match": bool(ok), "got": {"fit": M.toarray().tolist(), "transform": None if T is None else T.toarray().tolist()}}
+
+
+def replay_vs_token(r):
+    from vectorizers import TokenCooccurrenceVectorizer
+    p, inp = r["params"], r["inputs"]
+    kind, cfg = p["kind"], p["cfg"]
+    toks = [[int(t) for t in d] for d in inp["tokens"]]
+    if kind == "timed":
+        X = [[(t, float(tm)) for t, tm in zip(d, ts)] for d, ts in zip(toks, inp["times"])]
+    else:
+        X = [[[t] for t in d] for d in toks]
+    kw = dict(window_radii=cfg.get("radii", 1), window_orientations=cfg.get("orientations", "directional"), kernel_functions="flat",
+              normalize_windows=cfg.get("normalize_windows", False))
+    try:
+        a = CLS[kind](**kw); Ma = a.fit_transform(X)
+        b = TokenCooccurrenceVectorizer(**kw); Mb = b.fit_transform(toks)
+    except Exception as e:
+        return {"violation": True, "detail": "%s: %s" % (type(e).__name__, e)}
+    bad = dict(a.token_label_dictionary_) != dict(b.token_label_dictionary_) or not _same(Ma, Mb)
+    return {"violation": bool(bad), "detail": "%s vs token %s" % (Ma.toarray().tolist(), Mb.toarray().tolist())}
